@@ -12,6 +12,7 @@ import (
 	"path/filepath"
 	"reflect"
 	"strings"
+	"sync"
 	"testing"
 	"time"
 	"unicode/utf8"
@@ -702,6 +703,65 @@ func witnessProp() engine.AnyProp {
 	}
 }
 
+// slowReaderProp: a consumer that is slow is not a consumer that is gone. One case per run (shard
+// 0 only): a file is read row by row with a pause after the first row - 6 s in the quick tier,
+// 21 s in the thorough one; the pause is waiting, not a verdict - and every row written must
+// still arrive.
+var slowOnce sync.Once
+
+func slowReaderProp() engine.AnyProp {
+	return engine.Prop[witnessCase]{
+		ID: "C11", Subject: "csv/slow-reader",
+		Gen: func(t *rapid.T) witnessCase { return witnessCase{W: rapid.IntRange(3, 6).Draw(t, "rows")} },
+		Check: func(c witnessCase) engine.Outcome {
+			var o engine.Outcome
+			o.Key = "skipped"
+			if engine.Shard() != 0 {
+				return o
+			}
+			slowOnce.Do(func() {
+				o.Key = fmt.Sprint("slow", c.W)
+				tmp, err := os.MkdirTemp("", "verif-c11-slow-")
+				if err != nil {
+					o.Failf("harness: %v", err)
+					return
+				}
+				defer os.RemoveAll(tmp)
+				var rows []RowD
+				for i := 0; i < c.W; i++ {
+					rows = append(rows, RowD{Only: fmt.Sprint("row", i)})
+				}
+				path := filepath.Join(tmp, "slow.csv")
+				cd, _ := helper.NewCsv[RowD](true)
+				if err := cd.WriteToFile(path, helper.SliceToChan(ptrs(rows))); err != nil {
+					o.Failf("harness: %v", err)
+					return
+				}
+				ch, err := helper.ReadFromCsvFile[RowD](path, true)
+				if err != nil {
+					o.Failf("ReadFromCsvFile: %v", err)
+					return
+				}
+				back := []*RowD{<-ch}
+				pause := 6 * time.Second
+				if engine.Thorough() {
+					pause = 21 * time.Second
+				}
+				time.Sleep(pause)
+				for r := range ch {
+					back = append(back, r)
+				}
+				if msg := equalRows(back, rows); msg != "" {
+					o.Failf("a reader that paused %v after the first row: %s", pause, msg)
+				}
+				o.NonTrivial = true
+				o.Add("slow_reads", 1)
+			})
+			return o
+		},
+	}
+}
+
 func props() []engine.AnyProp {
 	return []engine.AnyProp{
 		csvProp("RowA(string,bool,ints)", func(t *rapid.T, ex *int) RowA {
@@ -744,7 +804,7 @@ func props() []engine.AnyProp {
 			return asset.Snapshot{Date: genTime(t, "date", true), Open: fin("o"), High: fin("h"), Low: fin("l"), Close: fin("c"), Volume: fin("v")}
 		}),
 		jsonProp(),
-		witnessProp(),
+		witnessProp(), slowReaderProp(),
 	}
 }
 
